@@ -10,6 +10,6 @@ CONSTANTS
   ELits = {"a"}
   PLits = {"a", "b"}
   Depth = 2
-  PathDepth = 3
+  PathDepth = 2
 INVARIANTS Det MostSpecific OutcomesExact
 CHECK_DEADLOCK FALSE
